@@ -33,8 +33,18 @@ class Result:
                 f"evals={self.evals}, leaves={self.leaves}, finite={self.finite})")
 
 
-def _rule(f, pid, lo, hi, n, dim, stat):
-    """GL value on each box: pid (k,), lo/hi (k,dim) -> (k,)"""
+def _corners(dim):
+    if dim == 1:
+        return np.array([[0.0], [1.0]])
+    return np.array([[0.0, 0.0], [0.0, 1.0], [1.0, 0.0], [1.0, 1.0]])
+
+
+def _rule(f, pid, lo, hi, n, dim, stat, flagf=None):
+    """GL value on each box: pid (k,), lo/hi (k,dim) -> (k,), and the jump bound of each box:
+    0 where the flag function (the polarization J seen at the point, i.e. which magnets contain it)
+    is constant over the box's nodes and corners, else (max - min of the integrand density over the
+    nodes) * measure of the box -- the integrand jumps where the surface / loop crosses a magnet
+    boundary, and |fine - coarse| can be accidentally tiny on such a box"""
     x, w = gl(n)
     k = len(pid)
     if dim == 1:
@@ -56,7 +66,19 @@ def _rule(f, pid, lo, hi, n, dim, stat):
     if len(mag):
         stat["maxmag"] = max(stat["maxmag"], float(np.max(mag)))
     vol = np.prod(hi - lo, axis=1)
-    return (vals.reshape(k, m) * ww[None, :]).sum(axis=1) * vol
+    V = (vals.reshape(k, m) * ww[None, :]).sum(axis=1) * vol
+    bound = np.zeros(k)
+    if flagf is not None and k:
+        cg = _corners(dim)
+        gg = np.concatenate([g, cg])
+        mm = len(gg)
+        Uf = lo[:, None, :] + (hi - lo)[:, None, :] * gg[None, :, :]
+        fl = np.asarray(flagf(np.repeat(pid, mm), Uf.reshape(k * mm, dim)), dtype=float).reshape(k, mm, -1)
+        stat["flag_evals"] = stat.get("flag_evals", 0) + k * mm
+        cut = np.any(fl.max(axis=1) != fl.min(axis=1), axis=1)
+        vv = vals.reshape(k, m)
+        bound = np.where(cut, (vv.max(axis=1) - vv.min(axis=1)) * vol, 0.0)
+    return V, bound
 
 
 def _split(pid, lo, hi, dim):
@@ -83,7 +105,7 @@ def _split(pid, lo, hi, dim):
     return np.repeat(pid, C), clo.reshape(k * C, dim), chi.reshape(k * C, dim), C
 
 
-def integrate(f, dim, npatch, init, measure, target_rel, max_evals, n=5, max_rounds=60):
+def integrate(f, dim, npatch, init, measure, target_rel, max_evals, n=5, max_rounds=60, flagf=None):
     """integrate f over `npatch` patches [0,1]^dim, each first cut into init^dim boxes.
     `measure`: total length / area (for the scale max|F| * measure)."""
     stat = {"evals": 0, "finite": True, "maxmag": 0.0}
@@ -99,14 +121,15 @@ def integrate(f, dim, npatch, init, measure, target_rel, max_evals, n=5, max_rou
     pid = np.repeat(np.arange(npatch), nb)
     lo = np.tile(lo0, (npatch, 1))
     hi = np.tile(hi0, (npatch, 1))
-    V = _rule(f, pid, lo, hi, n, dim, stat)
+    V, _ = _rule(f, pid, lo, hi, n, dim, stat, flagf)
 
     def expand(pid, lo, hi, V):
         cp, clo, chi, C = _split(pid, lo, hi, dim)
-        cV = _rule(f, cp, clo, chi, n, dim, stat)
+        cV, cB = _rule(f, cp, clo, chi, n, dim, stat, flagf)
         val = cV.reshape(-1, C).sum(axis=1)
         return {"cp": cp.reshape(-1, C), "clo": clo.reshape(-1, C, dim), "chi": chi.reshape(-1, C, dim),
-                "cV": cV.reshape(-1, C), "val": val, "err": np.abs(val - V)}
+                "cV": cV.reshape(-1, C), "val": val,
+                "err": np.abs(val - V) + cB.reshape(-1, C).sum(axis=1)}
 
     L = expand(pid, lo, hi, V)
     C = L["cV"].shape[1]
